@@ -61,11 +61,18 @@ ENDINGS['hard_cleanup'] = ('HARD_ERROR', 'cleanup')
 ENDINGS['include_missing'] = ('FILE_ACCESS_ERROR', 'setup')
 ENDINGS['pre_false'] = ('PRE_PROCESS_ERROR', None)
 ENDINGS['pre_nonexec'] = ('PRE_PROCESS_ERROR', None)
+# the preprocessor writes the whole case to stdout and is then ended by a signal ("exits with a non-zero exit code")
+ENDINGS['pre_killed'] = ('PRE_PROCESS_ERROR', None)
+ENDINGS['pre_terminated'] = ('PRE_PROCESS_ERROR', None)
+# two failures in one case: "an error ... will be reported as an error, and not as a failed test"
+ENDINGS['fail_and_hard_cleanup'] = ('HARD_ERROR', 'cleanup')
+ENDINGS['hard_assert_and_hard_cleanup'] = ('HARD_ERROR', 'cleanup')
 ENDINGS['usage_nofile'] = ('USAGE', None)
 ENDINGS['usage_option'] = ('USAGE', None)
 ENDINGS['usage_twofiles'] = ('USAGE', None)
 ENDINGS['usage_noarg'] = ('USAGE', None)
 ENDING_NAMES = sorted(ENDINGS)
+PP_SIGNAL = 'cat "$2"\nkill -$1 $$\nsleep 5\n'
 
 
 def build(case):
@@ -109,6 +116,16 @@ def build(case):
         argv_pre = ['--preprocessor', 'false']
     elif ending == 'pre_nonexec':
         argv_pre = ['--preprocessor', '/nonexistent-dir/pp']
+    elif ending == 'pre_killed':
+        argv_pre = ['--preprocessor', '/bin/sh {HOME}/pp-signal.sh KILL']
+    elif ending == 'pre_terminated':
+        argv_pre = ['--preprocessor', '/bin/sh {HOME}/pp-signal.sh TERM']
+    elif ending == 'fail_and_hard_cleanup':
+        ph['assert'].append('exit-code == %d' % ((code + 1) % 256))
+        ph['cleanup'].append('$ exit 3')
+    elif ending == 'hard_assert_and_hard_cleanup':
+        ph['assert'].append('contents missing-file : is-empty')
+        ph['cleanup'].append('$ exit 3')
     elif ending == 'pass_preprocessed':
         argv_pre = ['--preprocessor', 'cat']
     order = case.get('order') or ['conf', 'setup', 'act', 'before-assert', 'assert', 'cleanup']
@@ -182,8 +199,9 @@ def check(case) -> Verdict:
     mode = case['mode']
     with driver.Workspace() as ws:
         ws.write('t.case', text)
+        ws.write('pp-signal.sh', PP_SIGNAL)
         ws.probe_cfg('act', exit=case['code'], stdout=case['out'], stderr=case['err'])
-        r = driver.run_inproc(ws, argv)
+        r = driver.run_inproc(ws, [ws.subst(a) for a in argv])
         sandboxes = r.sandboxes
         act_ran = bool(ws.probe_records('act'))
         sb_path_ok = None
@@ -364,8 +382,10 @@ def check_subprocess(case) -> Verdict:
     for how in ('inproc', 'subproc'):
         with driver.Workspace() as ws:
             ws.write('t.case', text)
+            ws.write('pp-signal.sh', PP_SIGNAL)
+            argv_here = [ws.subst(a) for a in argv]
             ws.probe_cfg('act', exit=case['code'], stdout=case['out'], stderr=case['err'])
-            r = driver.run_inproc(ws, argv) if how == 'inproc' else driver.run_subproc(ws, argv)
+            r = driver.run_inproc(ws, argv_here) if how == 'inproc' else driver.run_subproc(ws, argv_here)
             root = ws.root
         norm = lambda s: s.replace(root, '<WS>')
         import re as _re
